@@ -71,12 +71,15 @@ Fixpoint stats_ok (s : pol) : Prop :=
   | PFair _ _ fl total st => fs_enq st = fs_deq st + total
   | PWfq _ _ fl total st => ws_enq st = ws_deq st + total
   | PBalk _ _ i => stats_ok i
+  | PRed _ l st => rs_enq st = rs_deq st + zlen l
+  | PCodel _ l _ st => cs_enq st = cs_deq st + cs_drop st + zlen l
+  | PAdapt _ _ l _ st => as_enq st = as_df st + as_dl st + zlen l
   | _ => True
   end.
 
 Lemma push_stats balk it : forall s s' ok, stats_ok s -> pol_push balk it s = (s', ok) -> stats_ok s'.
 Proof.
-  induction s as [cap l|cap l|cap ctr h|cap ctr h st|maxf pfc fl total st|cap pfc fl total st|thr b i IH];
+  induction s as [cap l|cap l|cap ctr h|cap ctr h st|maxf pfc fl total st|cap pfc fl total st|thr b i IH|rcap l st|cap l sched st|athr cap l wasc st];
     cbn [pol_push stats_ok]; intros s' ok Hw H.
   - destruct (cap_full cap (zlen l)); inversion H; subst; exact I.
   - destruct (cap_full cap (zlen l)); inversion H; subst; exact I.
@@ -92,11 +95,15 @@ Proof.
       cbn [stats_ok ws_enq ws_deq]; lia.
   - destruct ((thr <=? pol_len i) && balk); [inversion H; subst; exact Hw|].
     destruct (pol_push balk it i) as [i' ok'] eqn:E. inversion H; subst. cbn [stats_ok]. eauto.
+  - destruct (rcap <=? zlen l); [inversion H; subst; cbn [stats_ok rs_enq rs_deq]; lia|].
+    destruct balk; inversion H; subst; cbn [stats_ok rs_enq rs_deq]; rewrite ?zlen_app, ?zlen_cons; change (zlen (@nil item)) with 0; lia.
+  - destruct (cap_full cap (zlen l)); inversion H; subst; cbn [stats_ok cs_enq cs_deq cs_drop]; rewrite ?zlen_app, ?zlen_cons; change (zlen (@nil item)) with 0; lia.
+  - destruct (cap_full cap (zlen l)); inversion H; subst; cbn [stats_ok as_enq as_df as_dl]; rewrite ?zlen_app, ?zlen_cons; change (zlen (@nil item)) with 0; lia.
 Qed.
 
 Lemma pop_stats now : forall s s' r ex, stats_ok s -> pol_pop now s = (s', r, ex) -> stats_ok s'.
 Proof.
-  induction s as [cap l|cap l|cap ctr h|cap ctr h st|maxf pfc fl total st|cap pfc fl total st|thr b i IH];
+  induction s as [cap l|cap l|cap ctr h|cap ctr h st|maxf pfc fl total st|cap pfc fl total st|thr b i IH|rcap l st|cap l sched st|athr cap l wasc st];
     cbn [pol_pop stats_ok]; intros s' r ex Hw H.
   - destruct l; inversion H; subst; exact I.
   - destruct l; inversion H; subst; exact I.
@@ -109,6 +116,14 @@ Proof.
     destruct (wfq_pop (2 * length (w0 :: fl0)) (w0 :: fl0) 0) as [[fl' r'] rm].
     destruct r'; inversion H; subst; cbn [stats_ok ws_enq ws_deq]; lia.
   - destruct (pol_pop now i) as [[i' r'] e'] eqn:E. inversion H; subst. cbn [stats_ok]. eauto.
+  - destruct l; inversion H; subst; cbn [stats_ok rs_enq rs_deq] in *; rewrite ?zlen_cons in *; lia.
+  - destruct l as [|it l]; inversion H; subst; cbn [stats_ok cs_enq cs_deq cs_drop] in *; [lia|].
+    rewrite zlen_cons, (firstn_skipn_len (Z.to_nat (hd 0 sched)) l) in Hw. lia.
+  - destruct l as [|it0 l0]; [inversion H; subst; exact Hw|].
+    pose proof (removelast_last_len (it0 :: l0) ltac:(discriminate)) as Hl.
+    destruct (athr <=? zlen (it0 :: l0)); inversion H; subst; cbn [stats_ok as_enq as_df as_dl tl] in *.
+    + cbn [removelast] in Hl |- *. lia.
+    + rewrite zlen_cons in Hw. lia.
 Qed.
 
 Theorem policy_stats_conservation : forall ops s s' obs,
@@ -128,6 +143,8 @@ Fixpoint within_cap (s : pol) : Prop :=
   | PFair maxf pfc fl _ _ => le_cap (zlen fl) maxf /\ Forall (fun p => le_cap (zlen (snd p)) pfc) fl
   | PWfq cap pfc fl total _ => le_cap total cap /\ Forall (fun w => le_cap (zlen (wf_q w)) pfc) fl
   | PBalk _ _ i => within_cap i
+  | PRed cap l _ => zlen l <= Z.max 0 cap
+  | PCodel cap l _ _ | PAdapt _ cap l _ _ => le_cap (zlen l) cap
   end.
 
 Lemma cap_not_full cap n : cap_full cap n = false -> le_cap (n + 1) cap.
@@ -199,7 +216,7 @@ Qed.
 
 Lemma push_cap balk it : forall s s' ok, within_cap s -> pol_push balk it s = (s', ok) -> within_cap s'.
 Proof.
-  induction s as [cap l|cap l|cap ctr h|cap ctr h st|maxf pfc fl total st|cap pfc fl total st|thr b i IH];
+  induction s as [cap l|cap l|cap ctr h|cap ctr h st|maxf pfc fl total st|cap pfc fl total st|thr b i IH|rcap l st|cap l sched st|athr cap l wasc st];
     cbn [pol_push within_cap]; intros s' ok Hw H.
   - destruct (cap_full cap (zlen l)) eqn:E; inversion H; subst; cbn [within_cap]; [exact Hw|].
     rewrite zlen_app, zlen_cons. change (zlen (@nil item)) with 0. replace (zlen l + (1 + 0)) with (zlen l + 1) by lia. now apply cap_not_full.
@@ -237,11 +254,18 @@ Proof.
     + split; [exact E|]. apply wf_append_cap; auto.
   - destruct ((thr <=? pol_len i) && balk); [inversion H; subst; exact Hw|].
     destruct (pol_push balk it i) as [i' ok'] eqn:E. inversion H; subst. cbn [within_cap]. eauto.
+  - destruct (rcap <=? zlen l) eqn:E; [inversion H; subst; exact Hw|].
+    destruct balk; inversion H; subst; cbn [within_cap]; [exact Hw|].
+    rewrite zlen_app, zlen_cons. change (zlen (@nil item)) with 0. apply Z.leb_gt in E. lia.
+  - destruct (cap_full cap (zlen l)) eqn:E; inversion H; subst; cbn [within_cap]; [exact Hw|].
+    rewrite zlen_app, zlen_cons. change (zlen (@nil item)) with 0. replace (zlen l + (1 + 0)) with (zlen l + 1) by lia. now apply cap_not_full.
+  - destruct (cap_full cap (zlen l)) eqn:E; inversion H; subst; cbn [within_cap]; [exact Hw|].
+    rewrite zlen_app, zlen_cons. change (zlen (@nil item)) with 0. replace (zlen l + (1 + 0)) with (zlen l + 1) by lia. now apply cap_not_full.
 Qed.
 
 Lemma pop_cap now : forall s s' r ex, within_cap s -> pol_pop now s = (s', r, ex) -> within_cap s'.
 Proof.
-  induction s as [cap l|cap l|cap ctr h|cap ctr h st|maxf pfc fl total st|cap pfc fl total st|thr b i IH];
+  induction s as [cap l|cap l|cap ctr h|cap ctr h st|maxf pfc fl total st|cap pfc fl total st|thr b i IH|rcap l st|cap l sched st|athr cap l wasc st];
     cbn [pol_pop within_cap]; intros s' r ex Hw H.
   - destruct l; inversion H; subst; cbn [within_cap]; [exact Hw|]. eapply le_cap_mono; [|exact Hw]. rewrite zlen_cons. lia.
   - destruct l; inversion H; subst; cbn [within_cap]; [exact Hw|]. eapply le_cap_mono; [|exact Hw]. rewrite zlen_cons. lia.
@@ -258,6 +282,15 @@ Proof.
     destruct r'; inversion H; subst; cbn [within_cap]; (split; [|exact Hall']); [|exact Hm].
     eapply le_cap_mono; [|exact Hm]. lia.
   - destruct (pol_pop now i) as [[i' r'] e'] eqn:E. inversion H; subst. cbn [within_cap]. eauto.
+  - destruct l; inversion H; subst; cbn [within_cap] in *; [exact Hw|]. rewrite zlen_cons in Hw. lia.
+  - destruct l as [|it l]; inversion H; subst; cbn [within_cap] in *; [exact Hw|].
+    eapply le_cap_mono; [|exact Hw]. rewrite zlen_cons, (firstn_skipn_len (Z.to_nat (hd 0 sched)) l).
+    pose proof (zlen_nonneg (firstn (Z.to_nat (hd 0 sched)) l)). lia.
+  - destruct l as [|it0 l0]; [inversion H; subst; exact Hw|].
+    pose proof (removelast_last_len (it0 :: l0) ltac:(discriminate)) as Hl.
+    destruct (athr <=? zlen (it0 :: l0)); inversion H; subst; cbn [within_cap tl] in *; (eapply le_cap_mono; [|exact Hw]).
+    + cbn [removelast] in Hl |- *. lia.
+    + rewrite zlen_cons. lia.
 Qed.
 
 Theorem policy_capacity : forall ops s s' obs,
@@ -424,6 +457,9 @@ Proof.
       match type of H with (if ?c then _ else _) = _ => destruct c end; inversion H; subst; exact I.
     + destruct ((thr <=? pol_len s) && balk); [inversion H; subst; exact I|].
       destruct (pol_push balk it s); inversion H; subst; exact I.
+    + destruct (cap <=? zlen l); [inversion H; subst; exact I|]. destruct balk; inversion H; subst; exact I.
+    + destruct (cap_full cap (zlen l)); inversion H; subst; exact I.
+    + destruct (cap_full cap (zlen l)); inversion H; subst; exact I.
   - intros now s s' r ex Hs H. destruct s; cbn [pol_pop] in H.
     + destruct l; inversion H; subst; exact I.
     + destruct l; inversion H; subst; exact I.
@@ -434,6 +470,9 @@ Proof.
       destruct (wfq_pop (2 * length (w0 :: fl0)) (w0 :: fl0) 0) as [[fl' r'] rm].
       destruct r'; inversion H; subst; exact I.
     + destruct (pol_pop now s) as [[i' r'] e']. inversion H; subst; exact I.
+    + destruct l; inversion H; subst; exact I.
+    + destruct l; inversion H; subst; exact I.
+    + destruct l as [|it0 l0]; [inversion H; subst; exact I|]. destruct (thr <=? zlen (it0 :: l0)); inversion H; subst; exact I.
 Qed.
 
 (** PriorityQueue: pop returns the held item with the least (priority,
